@@ -224,6 +224,12 @@ def run(ctx):
             continue              # floating point values print through repr(float): not modelled
         cases.append((k, d))
     mres = drv.pbatch(["reparse|%s|%s" % (cstr[k], enc(d)) for k, d in cases])
+    # how many of the cases meet the hypotheses of the round-trip theorems (C09_reparse_of_rendering_is_identity)?
+    fres = drv.pbatch(["frag|%s|%s" % (cstr[k], enc(d)) for k, d in cases])
+    infrag = {}
+    for (k, d), fr in zip(cases, fres):
+        ctx.hist("fragment:" + {"IN": "in", "OUT": "out"}.get(fr, "not-a-declaration"))
+        infrag[(k, d)] = fr == "IN"
     nb = 0
     for (k, d), m in zip(cases, mres):
         a = parse(k, d)
@@ -254,7 +260,8 @@ def run(ctx):
             ctx.known_finding(KF_CTORLIKE, "")
             continue
         if b is None or canon(a) != canon(b):
-            ctx.violation("failing-input", {"what": "re-parsing Shroud's own rendering does not give the same declaration",
+            ctx.violation("failing-input", {"what": "re-parsing Shroud's own rendering does not give the same declaration"
+                                                    + (" (inside the fragment of theorem C09_reparse_of_rendering_is_identity)" if infrag.get((k, d)) else ""),
                                             "input": {"scope": k, "decl": d, "rendering": itext,
                                                       "first": canon(a)[:600], "second": (canon(b)[:600] if b is not None else "rejected")}})
     ctx.sample({"decl": cases[0][1], "model": mres[0][:300]})
